@@ -26,6 +26,7 @@ from sim.kernel import EventLog, Outcome, PlanRng, Violation, call, fingerprint,
 from sim.seams import (LineInterrupter, SimInterrupt, ambient_perturb, import_dreye, own_entropy)
 
 ID = "C18"
+USES_PRISTINE = True
 PANEL_PER_MODE = 4
 PER_RUN_CAP = 300
 WALL_CAP = {"quick": 300, "thorough": 3600}
@@ -181,11 +182,21 @@ def generate(rs, mode, tier, index):
     names = [f"X{i}" for i in range(n_clouds)]
     n_ops = rng.integers(6, 20)
     ops = []
+    # a small pool of seeds per run: the same seed meets other clouds, other n, other options
+    seeds = [rng.integers(0, 2 ** 31) for _ in range(3)]
+    pool["bg"] = sig(rng.uniform(0.3, 2.0, n_dom))
+    pool["xa"] = sig(rng.uniform(0.3, 1.5, n_src))
+    pool["Kv2"] = sig(rng.uniform(0.5, 2.0, n_rec))
+    pool["bv2"] = sig(rng.uniform(0.0, 0.3, n_rec))
+
+    def seed():
+        return rng.choice(seeds) if rng.coin(0.7) else rng.integers(0, 2 ** 31)
+
     for _ in range(n_ops):
         c = rng.choice(["mw", "mw", "vol", "gamut", "gamut", "est", "jsd", "px", "consumer",
-                        "repeat"], p=[3, 2, 2, 2, 1.5, 1, 1, 1.5, 1, 2.5])
+                        "repeat", "emut"], p=[3, 2, 2, 2, 1.5, 1.5, 1, 1.5, 1, 2.5, 1.5])
         if c == "mw":
-            ops.append({"f": "mw", "X": rng.choice(names), "seed": rng.integers(0, 2 ** 31),
+            ops.append({"f": "mw", "X": rng.choice(names), "seed": seed(),
                         "n": rng.choice([1000, 1000, 200, 3000]), "vec": rng.coin(0.5),
                         "center": rng.coin(0.5),
                         "twin": rng.choice([None, "translate", "scale", "permute", "rotate",
@@ -195,15 +206,34 @@ def generate(rs, mode, tier, index):
                         "twin": rng.choice([None, "translate", "scale", "permute", "rotate",
                                             "superset"])})
         elif c == "gamut":
+            l1s = np.sort(G.sum(1))
             ops.append({"f": "gamut", "metric": rng.choice(["width", "volume"]),
-                        "seed": rng.integers(0, 2 ** 31),
-                        "rel": rng.choice([None, "self", "superset"]),
-                        "at_l1": rng.choice([None, None, float(sig(rng.uniform(0.3, 3.0)))]),
-                        "twin": rng.choice([None, "scale", "permute"])})
+                        "seed": seed(),
+                        "rel": rng.choice([None, None, "self", "superset"]),
+                        # a total between the smallest and the largest one (a real slice), or
+                        # one outside that range (nothing to slice: the metric is 0)
+                        "at_l1": rng.choice([None, None, float(sig(rng.uniform(l1s[0], l1s[-1]))),
+                                             float(sig(rng.uniform(l1s[0], l1s[-1]))),
+                                             float(sig(l1s[-1] * 1.5))]),
+                        "ctn": rng.coin(0.3),
+                        "twin": rng.choice([None, "scale", "permute", "ctnflip"])})
         elif c == "est":
             ops.append({"f": "est", "metric": rng.choice(["width", "volume"]),
-                        "seed": rng.integers(0, 2 ** 31), "relative": rng.coin(0.3),
-                        "K": rng.coin(0.5)})
+                        "seed": seed(), "relative": rng.coin(0.5),
+                        "fraction": rng.coin(0.8),
+                        "at_l1": None})
+        elif c == "emut":
+            # the persistent estimator's registered values change between metric requests
+            ops.append({"emut": rng.choice(["bg_adapt", "sys_adapt", "adapt", "baseline",
+                                            "bounds"]), "add": rng.coin(0.25)})
+            # ... and an earlier estimator request is asked again in the new state
+            prev_est = [o for o in ops if o.get("f") == "est"]
+            if prev_est and rng.coin(0.7):
+                ops.append(dict(rng.choice(prev_est)))
+            elif rng.coin(0.5):
+                ops.append({"f": "est", "metric": rng.choice(["width", "volume"]),
+                            "seed": seed(), "relative": rng.coin(0.5),
+                            "fraction": rng.coin(0.8), "at_l1": None})
         elif c == "jsd":
             ops.append({"f": "jsd"})
         elif c == "px":
@@ -229,7 +259,8 @@ def generate(rs, mode, tier, index):
                 ops.append({"abort_of": rng.choice(prev), "frac": float(sig(rng.random(), 4))})
                 ops.append({"repeat_of": ops[-1]["abort_of"]})
     return {"check": ID, "run_seed": rs, "mode": mode, "pool": pool, "cmeta": cmeta, "ops": ops,
-            "mc_seed": rng.integers(0, 2 ** 31)}
+            "mc_seed": rng.integers(0, 2 ** 31), "pristine": rng.coin(0.5),
+            "est_ctor": rng.choice(["plain", "K", "Kb"])}
 
 
 # ----------------------------------------------------------------------------
@@ -305,7 +336,7 @@ def twin_of(kind, X, pool, name):
     return X
 
 
-def run_op(op, pool, X=None):
+def run_op(op, pool, X=None, est=None):
     d = _dreye
     f = op["f"]
     if f == "mw":
@@ -323,13 +354,97 @@ def run_op(op, pool, X=None):
         elif op["rel"] == "superset":
             rel = op.get("_rel_twin", pool["G+"])
         return d.compute_gamut(G, at_l1=op["at_l1"], relative_to=rel, metric=op["metric"],
-                               seed=op["seed"])
+                               seed=op["seed"], center_to_neutral=bool(op.get("ctn", False)))
     if f == "est":
-        kw = {"K": pool["Kv"], "baseline": pool["bv"]} if op["K"] else {}
-        est = d.ReceptorEstimator(pool["F"], domain=1.0, sources=pool["S"], ub=pool["ub"], **kw)
-        return est.compute_gamut(fraction=True, metric=op["metric"], seed=op["seed"],
-                                 relative=op["relative"])
+        return est.compute_gamut(fraction=op.get("fraction", True), metric=op["metric"],
+                                 seed=op["seed"], relative=op["relative"])
     raise KeyError(f)
+
+
+def new_est(pool, how="plain", state=None):
+    kw = {}
+    if state is not None:
+        kw = {"K": state["K"], "baseline": state["baseline"]}
+    elif how in ("K", "Kb"):
+        kw = {"K": pool["Kv"]}
+        if how == "Kb":
+            kw["baseline"] = pool["bv"]
+    est = _dreye.ReceptorEstimator(pool["F"], domain=1.0, **kw)
+    est.register_system(pool["S"], lb=None if state is None else state["lb"],
+                        ub=pool["ub"] if state is None else state["ub"])
+    return est
+
+
+def est_state(est):
+    return {"K": np.array(est.K, copy=True), "baseline": np.array(est.baseline, copy=True),
+            "lb": np.array(est.lb, copy=True), "ub": np.array(est.ub, copy=True)}
+
+
+def apply_emut(est, op, pool):
+    m = op["emut"]
+    if m == "bg_adapt":
+        est.register_background_adaptation(pool["bg"], add=op["add"])
+    elif m == "sys_adapt":
+        est.register_system_adaptation(pool["xa"], add=op["add"])
+    elif m == "adapt":
+        est.register_adaptation(pool["Kv2"])
+    elif m == "baseline":
+        est.register_baseline(pool["bv2"])
+    else:
+        est.register_bounds(ub=pool["ub"] * 0.5)
+
+
+def pristine_metric(pool, op, state):
+    """Runs in a forked child of a process that imported dreye and never called it: the same
+    request, answered where no earlier request can have left anything behind."""
+    setup()
+    import warnings as _w
+    _w.filterwarnings("ignore")
+    est = new_est(pool, state=state) if state is not None else None
+    return float(run_op(op, pool, est=est))
+
+
+def chroma_measure(pts, metric, mc_seed, n_code):
+    """(value, se, sd) of the chromaticity hull of `pts` in the unit-edge barycentric chart:
+    the chart is a similarity of ratio 1/sqrt(2) of the plane {sum = 1}."""
+    from scipy.spatial import ConvexHull
+    C = pts / pts.sum(1, keepdims=True)
+    k = C.shape[1]
+    Y, r = span_coords(C)
+    Y = Y / math.sqrt(2.0)
+    if r == 0:
+        return 0.0, 0.0, 0.0
+    if metric == "volume" or k == 2:
+        if r == 1:
+            return float(Y[:, 0].max() - Y[:, 0].min()), 0.0, 0.0
+        if metric == "volume" and r < k - 1:
+            return None, None, None      # flat inside the chart: PCA path, not asserted here
+        if metric == "volume":
+            return float(ConvexHull(Y).volume), 0.0, 0.0
+    if r < k - 1:
+        return None, None, None          # mean width depends on the ambient dimension
+    g = np.random.Generator(np.random.PCG64(mc_seed))
+    R = g.standard_normal((r, 20000))
+    R /= np.linalg.norm(R, axis=0)
+    pr = Y @ R
+    w = pr.max(0) - pr.min(0)
+    sd = float(w.std())
+    if r == 2:
+        return float(ConvexHull(Y).area / math.pi), 0.0, sd
+    return float(w.mean()), sd / math.sqrt(len(w)), sd
+
+
+def slice_points(G, at_l1):
+    """Vertices of hull(G) cut by the plane {sum = at_l1}: every crossing of a segment between
+    a point below and a point above (a superset of the hull's crossing edges - same hull)."""
+    l1 = G.sum(1)
+    lo, hi = G[l1 < at_l1], G[l1 > at_l1]
+    on = G[l1 == at_l1]
+    out = [on] if len(on) else []
+    for a in lo:
+        t = (at_l1 - a.sum()) / (hi.sum(1) - a.sum())
+        out.append(a[None, :] + t[:, None] * (hi - a[None, :]))
+    return np.vstack(out)
 
 
 def execute(plan):
@@ -349,7 +464,21 @@ def execute(plan):
     def bump(k, n=1):
         counters[k] = counters.get(k, 0) + n
 
+    est = new_est(pool, plan.get("est_ctor", "plain"))
+    use_pristine = bool(plan.get("pristine"))
     pool_fp = {k: fingerprint(v) for k, v in pool.items() if isinstance(v, np.ndarray)}
+
+    def vs_pristine(op, v, where):
+        """the same request in a process where nothing was ever requested before"""
+        from sim import pristine
+        o = {k: x for k, x in op.items() if not k.startswith("_")}
+        st = est_state(est) if op["f"] == "est" else None
+        ref = pristine.client().call("checks.c18", "pristine_metric", plan["pool"], o, st)
+        bump("pristine_process_references")
+        if abs(ref - v) > 1e-11 * max(abs(ref), abs(v), 1e-300):
+            raise Violation(ID, "differs_from_pristine_process",
+                            f"{op['f']} {where} returned {v!r}; the same request in a process "
+                            f"where dreye was never called before returns {ref!r}", f=op["f"])
 
     def check_pool(where):
         for k, fp in pool_fp.items():
@@ -393,14 +522,28 @@ def execute(plan):
                     perturbed_since[k] = True
                 log.add(i, "consumer", c)
                 continue
+            if "emut" in op:
+                r = call(apply_emut, est, op, pool)
+                log.add(i, "emut", op["emut"], r.kind)
+                bump("estimator_registrations")
+                if not r.ok:
+                    raise Violation(ID, "registration_failed",
+                                    f"{op['emut']} on the estimator raised {r.brief()}", f="emut",
+                                    exc=r.value)
+                for k in perturbed_since:
+                    perturbed_since[k] = True
+                # an earlier estimator answer is no longer the answer of the current state
+                for j in [j for j, o in enumerate(plan["ops"][:i]) if o.get("f") == "est"]:
+                    answers.pop(j, None)
+                continue
             if "abort_of" in op:
                 src = plan["ops"][op["abort_of"]]
                 with LineInterrupter(None) as li0:
-                    call(run_op, src, pool)
+                    call(run_op, src, pool, None, est)
                 if li0.count:
                     with LineInterrupter(int(op["frac"] * li0.count)) as li:
                         try:
-                            call(run_op, src, pool)
+                            call(run_op, src, pool, None, est)
                         except SimInterrupt:
                             bump("fault:line_interrupt")
                             cov_faults.add("line_interrupt")
@@ -414,7 +557,7 @@ def execute(plan):
                 src = plan["ops"][j]
                 if j not in answers:
                     continue
-                r = call(run_op, src, pool)
+                r = call(run_op, src, pool, None, est)
                 v = val(src, r, f"repeat of op {j} ({src['f']})")
                 log.add(i, "repeat", v)
                 bump("repeated_requests")
@@ -431,13 +574,15 @@ def execute(plan):
             if f == "jsd":
                 _jsd(pool, bump, log, i)
                 continue
-            r = call(run_op, op, pool)
+            r = call(run_op, op, pool, None, est)
             check_pool(f"{f}")
             v = val(op, r, f"{f} (op {i})")
             answers[i] = v
             perturbed_since[i] = False
             log.add(i, f, v)
             bump("metric_calls")
+            if use_pristine:
+                vs_pristine(op, v, f"(op {i})")
             if f == "mw":
                 X, meta = pool[op["X"]], cmeta[op["X"]]
                 ref, se_ref, sd = width_ref(X, meta, plan["mc_seed"], op["n"])
@@ -521,8 +666,50 @@ def execute(plan):
                                         f"gamut relative to a superset is {v:.6g} > 1", f=f)
                 if v < -1e-12:
                     raise Violation(ID, "metric_negative", f"gamut metric {v}", f=f)
+                # absolute value: the chromaticity hull (of the slice at the requested total)
+                l1 = G.sum(1)
+                at = op["at_l1"]
+                if at is not None and (np.all(l1 <= at) or np.all(l1 > at)):
+                    num = (0.0, 0.0, 0.0)
+                else:
+                    pts = G if at is None else slice_points(G, at)
+                    num = chroma_measure(pts, op["metric"], plan["mc_seed"], 1000)
+                den = (1.0, 0.0, 0.0)
+                if op["rel"] is not None:
+                    den = chroma_measure(G if op["rel"] == "self" else pool["G+"], op["metric"],
+                                         plan["mc_seed"], 1000)
+                if num[0] is not None and den[0] is not None and den[0] > 0:
+                    bump("gamut_value_checks")
+                    ref = num[0] / den[0]
+                    mc = op["metric"] == "width" and G.shape[1] > 2
+                    if not mc:
+                        bad = abs(v - ref) > 1e-8 * max(abs(ref), 1e-12)
+                        zmsg = ""
+                    else:
+                        # Monte-Carlo numerator (and denominator): first-order error propagation
+                        se_n = math.sqrt(num[2] ** 2 / 1000 + num[1] ** 2)
+                        se_d = math.sqrt(den[2] ** 2 / 1000 + den[1] ** 2) if op["rel"] else 0.0
+                        se = math.sqrt((se_n / den[0]) ** 2 + (ref * se_d / den[0]) ** 2)
+                        z = (v - ref) / se if se > 0 else 0.0
+                        bad = abs(z) > 7 and abs(v - ref) > 1e-9
+                        zmsg = f" (z = {z:.1f})"
+                    if bad:
+                        raise Violation(ID, "gamut_wrong",
+                                        f"compute_gamut(metric={op['metric']!r}, at_l1={at}, "
+                                        f"relative_to={op['rel']}, center_to_neutral="
+                                        f"{bool(op.get('ctn'))}) on {G.shape[1]} receptors is "
+                                        f"{v:.9g}; the chromaticity hull gives {ref:.9g}{zmsg}",
+                                        f=f, metric=op["metric"], sliced=at is not None)
                 tw = op.get("twin")
-                if tw:
+                if tw == "ctnflip":
+                    cov_twins.add("gctnflip")
+                    nontrivial = True
+                    vt = val(op, call(run_op, dict(op, ctn=not op.get("ctn", False)), pool),
+                             "center_to_neutral twin")
+                    _exact(v, vt, 1e5, "gamut metric depends on centring the chart on the neutral "
+                           "point", f, tw)
+                    bump("twin_checks")
+                elif tw:
                     cov_twins.add("g" + tw)
                     nontrivial = True
                     Gt = G * 8.0 if tw == "scale" else G[::-1].copy()
@@ -536,8 +723,16 @@ def execute(plan):
                            "scale / row order with the same seed", f, tw)
                     bump("twin_checks")
             elif f == "est":
+                # the same request on an estimator built directly in the current registered state
+                fresh = new_est(pool, state=est_state(est))
+                vf = val(op, call(run_op, op, pool, None, fresh), "fresh-estimator reference")
+                bump("fresh_estimator_references")
+                nontrivial = True
+                _exact(v, vf, 1e4, "the estimator's gamut metric differs from that of an estimator "
+                       "built directly with the currently registered K / baseline / bounds", f,
+                       "fresh")
                 lim = 1.0 + (1e-9 if op["metric"] == "volume" else 0.1)
-                if not (0.0 < v <= lim) and not op["relative"]:
+                if not (0.0 < v <= lim) and not op["relative"] and op.get("fraction", True):
                     raise Violation(ID, "fractional_gamut_out_of_range",
                                     f"estimator's fractional gamut in absolute capture is {v:.6g}, "
                                     f"not in (0, 1]", f=f)
@@ -647,7 +842,7 @@ def candidates(plan):
 def signature(plan, vio):
     d = vio.get("detail", {})
     s = {"class": vio["class"]}
-    for k in ("f", "twin", "cloud", "exc"):
+    for k in ("f", "twin", "cloud", "exc", "metric", "sliced"):
         if k in d:
             s[k] = d[k]
     return s
@@ -658,7 +853,8 @@ def sample_repr(plan):
             "clouds": {k: dict(v, shape=list(plan["pool"][k].shape)) for k, v in
                        plan["cmeta"].items()},
             "ops": [o.get("f") or ("px" if "px" in o else ("consumer" if "consumer" in o else
-                    ("repeat" if "repeat_of" in o else "abort"))) for o in plan["ops"]],
+                    ("repeat" if "repeat_of" in o else ("emut:" + o["emut"] if "emut" in o
+                                                        else "abort")))) for o in plan["ops"]],
             "first_ops_full": plan["ops"][:4]}
 
 
